@@ -23,9 +23,10 @@ fn feedback_cfg() -> Cfg {
     c.n_out = (1, 3);
     c.n_bidir = (0, 1);
     c.allow_c = true;
-    // no X expansion here: how items group into evaluations (C05's business) is then just
-    // "1, or 3 for a row with C"
-    c.allow_input_x = false;
+    // X rows too: one evaluation then yields 2^k (x 3 with C) items, every checked one with a
+    // fresh answer
+    c.allow_input_x = true;
+    c.max_x = 2;
     // a virtual signal can turn a row into an error item; the caller goes on, and what later
     // expressions see must not be affected
     c.max_virtual = 1;
@@ -46,7 +47,7 @@ impl Property for C04 {
         "C04"
     }
     fn rule(&self) -> &'static str {
-        "profile `feedback`: programs that read outputs in row entries, let, loop bounds, while and ite conditions, with C rows (both driver types, so forwarded mid-clock calls of the defaulting driver must stay invisible) and X rows, 0-1 virtual signals; variables and counters named like outputs; device answers differ on every call; with probability 1/4 Z/X answers, with probability 1/4 a malformed answer to one call (an entry repeated or two swapped; that row is an error item and the caller goes on), with probability 1/8 a layout that omits a read signal. Every row statement carries a tag and three 64-bit probe inputs `(Q)` reading a device output that cannot be a variable at that row, or a variable that shadows an output. Oracle (self-consistent, from the recording driver's own log): the probe value of every item equals the value the driver returned for Q in the latest call made for a checked item (or by the constructor) before the source row was evaluated; a Z/X answer there means the row must be an error item, not a row; a shadowing variable's probe equals vars(); an omitted read signal => constructor error after exactly one call and no row. Non-trivial: a device probe was checked after >= 2 output-reading calls that returned different values for it, or after a mid-clock write, or a constructor refusal / Z-X error was due; distinct by source + signals + driver."
+        "profile `feedback`: programs that read outputs in row entries, let, loop bounds, while and ite conditions, with C rows (both driver types, so forwarded mid-clock calls of the defaulting driver must stay invisible) and X rows, 0-1 virtual signals; variables and counters named like outputs; device answers differ on every call; with probability 1/4 Z/X answers, with probability 1/4 a malformed answer to one call (an entry repeated or two swapped; that row is an error item and the caller goes on), with probability about 1/5 a driver failure on one call (the caller goes on; the failed item keeps its place in its expansion and nothing was read by it), with probability 1/8 a layout that omits a read signal. Every row statement carries a tag and three 64-bit probe inputs `(Q)` reading a device output that cannot be a variable at that row, or a variable that shadows an output. Oracle (self-consistent, from the recording driver's own log): the probe value of every item equals the value the driver returned for Q in the latest call made for a checked item (or by the constructor) before the source row was evaluated; a Z/X answer there means the row must be an error item, not a row; a shadowing variable's probe equals vars(); an omitted read signal => constructor error after exactly one call and no row. Non-trivial: a device probe was checked after >= 2 output-reading calls that returned different values for it, or after a mid-clock write, or a constructor refusal / Z-X error was due; distinct by source + signals + driver."
     }
     fn cases(&self, tier: Tier) -> u64 {
         match tier {
@@ -64,6 +65,7 @@ impl Property for C04 {
             "probe-before-first-row",
             "shadowing-variable-probed",
             "row-after-virtual-error",
+            "row-after-driver-failure",
             "probe-in-loop",
         ]
     }
@@ -92,6 +94,11 @@ impl Property for C04 {
             let p = dch.upto(8);
             spec.deviate_at = Some((1 + dch.upto(10), if dch.chance(1, 2) { Deviation::Duplicate(p) } else { Deviation::Swap(p, p + 1 + dch.upto(3)) }));
         }
+        // in a fifth of the cases the driver fails on one call; the caller goes on, and the
+        // latest values read stay those of the latest call that succeeded
+        if spec.deviate_at.is_none() && dch.chance(1, 4) {
+            spec.fail_at = Some(1 + dch.upto(16));
+        }
         let mut omitted = None;
         if !must.is_empty() && dch.chance(1, 8) {
             let victim = must[dch.upto(must.len())];
@@ -109,7 +116,7 @@ impl Property for C04 {
             &tc,
             &built.sigs,
             &spec,
-            &RunOpts { max_next: 300, want_vars: true, continue_after_error: true, ..Default::default() },
+            &RunOpts { max_next: 300, want_vars: true, continue_after_error: true, continue_after_driver_error: true, ..Default::default() },
         );
         // the program reads an output the driver does not supply: construction must fail
         if let Some(name) = &omitted {
@@ -162,6 +169,7 @@ impl Property for C04 {
         let mut checked_calls = 1usize;
         let mut midclock_since = false;
         let mut seen_virtual_error = false;
+        let mut seen_driver_failure = false;
         let mut nontrivial = false;
         // position within the current run of same-tag items
         let mut run_tag: Option<i64> = None;
@@ -179,7 +187,10 @@ impl Property for C04 {
                     out.fail(p.key(), format!("item {i} panicked: {p}"));
                     return out;
                 }
-                RealItem::DriverErr(_) => break,
+                RealItem::DriverErr(_) if !matches!(call, Some(c) if c.failed) => break,
+                // (a driver failure on a row's call is handled below: the item keeps its place
+                // in the expansion, nothing was read)
+                RealItem::DriverErr(_) => {}
                 RealItem::RuntimeErr(_) => {
                     if made_call {
                         // an error item with its driver call: a virtual signal read Z/X in this
@@ -209,7 +220,21 @@ impl Property for C04 {
                     nontrivial = true;
                     break;
                 }
-                RealItem::Row(row) => {
+                RealItem::Row(_) => {}
+            }
+            // a row, or the item whose call the driver failed (known by the vector it received)
+            let failed_row;
+            let (row, is_failed): (&RealRow, bool) = match item {
+                RealItem::Row(row) => (row, false),
+                _ => {
+                    let Some(c) = call else { break };
+                    failed_row = RealRow { inputs: c.inputs.clone(), outputs: vec![], failing: vec![], line: 0 };
+                    out.class("driver-failure-item");
+                    (&failed_row, true)
+                }
+            };
+            {
+                {
                     let Some(InVal::Val(tag)) = row.inputs.iter().find(|e| e.0 == "TAG").map(|e| e.1) else { break };
                     let Some(info) = rows.get(&((tag - 1) as usize)) else { break };
                     if desync {
@@ -239,6 +264,11 @@ impl Property for C04 {
                     }
                     out.class_if(seen_virtual_error, "row-after-virtual-error");
                     out.class_if(i == 0, "probe-before-first-row");
+                    out.class_if(seen_driver_failure && !is_failed, "row-after-driver-failure");
+                    if is_failed {
+                        seen_driver_failure = true;
+                        continue;
+                    }
                     for (k, p) in info.probes.iter().enumerate() {
                         let Some(name) = p else { continue };
                         let Some(InVal::Val(shown)) = row.inputs.iter().find(|e| e.0 == format!("PR{k}")).map(|e| e.1) else { continue };
